@@ -105,6 +105,19 @@ def export_facts(config, repo=None, crate="melda", quiet=True):
             for d in os.listdir(fp):
                 if d.startswith(crate + "-"):
                     shutil.rmtree(os.path.join(fp, d), ignore_errors=True)
+        for sub in ("deps", "incremental"):
+            dd = os.path.join(target, "debug", sub)
+            if os.path.isdir(dd):
+                for d in os.listdir(dd):
+                    if d.startswith(crate + "-") or d.startswith("lib" + crate + "-"):
+                        pth = os.path.join(dd, d)
+                        if os.path.isdir(pth):
+                            shutil.rmtree(pth, ignore_errors=True)
+                        else:
+                            try:
+                                os.remove(pth)
+                            except OSError:
+                                pass
         env = dict(os.environ)
         env["LD_LIBRARY_PATH"] = nightly_sysroot() + "/lib:" + env.get("LD_LIBRARY_PATH", "")
         env["RUSTFLAGS"] = "-Zmir-opt-level=0 -Awarnings"
@@ -132,6 +145,55 @@ def export_facts(config, repo=None, crate="melda", quiet=True):
         lockf.close()
 
 
+def export_fixture_facts():
+    """facts of the positive fixture crate /verif/fixtures/vfix (same driver, own target dir)"""
+    ensure_driver()
+    fx = os.path.join(VERIF, "fixtures", "vfix")
+    h = hashlib.sha256()
+    for root, dirs, fs in os.walk(os.path.join(fx, "src")):
+        dirs.sort()
+        for f in sorted(fs):
+            h.update(open(os.path.join(root, f), "rb").read())
+    h.update(open(os.path.join(fx, "Cargo.toml"), "rb").read())
+    h.update(hashlib.sha256(open(DRIVER, "rb").read()).digest())
+    th = "fixture-" + h.hexdigest()[:20]
+    outdir = os.path.join(CACHE, "facts", th)
+    out = os.path.join(outdir, "melda.fixture.json")
+    if os.path.exists(out):
+        os.utime(outdir, None)
+        return out
+    os.makedirs(outdir, exist_ok=True)
+    lockf = open(os.path.join(CACHE, "export-fixture.lock"), "w")
+    fcntl.flock(lockf, fcntl.LOCK_EX)
+    try:
+        if os.path.exists(out):
+            return out
+        target = os.path.join(CACHE, "target-fix")
+        fp = os.path.join(target, "debug", ".fingerprint")
+        if os.path.isdir(fp):
+            for d in os.listdir(fp):
+                if d.startswith("melda-"):
+                    shutil.rmtree(os.path.join(fp, d), ignore_errors=True)
+        env = dict(os.environ)
+        env["LD_LIBRARY_PATH"] = nightly_sysroot() + "/lib:" + env.get("LD_LIBRARY_PATH", "")
+        env["RUSTFLAGS"] = "-Zmir-opt-level=0 -Awarnings"
+        env["RUSTC_WORKSPACE_WRAPPER"] = DRIVER
+        env["MIRFACTS_OUT"] = outdir
+        env["MIRFACTS_TAG"] = "fixture"
+        env["MIRFACTS_CRATES"] = "melda"
+        env["CARGO_TARGET_DIR"] = target
+        env["CARGO_NET_OFFLINE"] = "true"
+        p = subprocess.run(["cargo", "+nightly", "check", "--offline", "--lib"], cwd=fx, env=env,
+                           stdout=subprocess.PIPE, stderr=subprocess.STDOUT, text=True)
+        if p.returncode != 0 or not os.path.exists(out):
+            sys.stderr.write(p.stdout[-3000:])
+            raise RuntimeError("fixture fact export failed (exit %d)" % p.returncode)
+        return out
+    finally:
+        fcntl.flock(lockf, fcntl.LOCK_UN)
+        lockf.close()
+
+
 # ------------------------------------------------------------------------- results
 class Violation:
     def __init__(self, rule, key, msg, loc=None, detail=None):
@@ -154,6 +216,7 @@ class Result:
         self.config = None
         self.assumptions = []
         self.exceptions = []
+        self.fixture = False
 
     def rule(self, rid, desc):
         self.rules.setdefault(rid, desc)
@@ -175,6 +238,8 @@ class Result:
 
     def floor(self, rule, what, count, minimum):
         """fail closed when fewer anchors / instances matched than were counted by hand"""
+        if self.fixture:
+            return
         self.floors.append({"rule": rule, "what": what, "count": count, "floor": minimum, "config": self.config})
         if count < minimum:
             self.violation(rule, "floor:" + what,
@@ -312,4 +377,70 @@ def dep_features(crate_name, repo=None):
     for n in m["resolve"]["nodes"]:
         if ("#%s@" % crate_name) in n["id"] or ("/%s#" % crate_name) in n["id"]:
             out.append(sorted(n["features"]))
+    return out
+
+
+# ------------------------------------------------------------------------- sensitivity suite
+def sensitivity(prop, res):
+    """Thorough tier: analyse (never run) one-edit variants of the repository that each break one clause of
+    `prop`; record whether the rule fires and names the instance. A variant whose edit no longer applies to
+    the current tree is skipped and reported. Outcomes are checker-health information: they are written to the
+    evidence file and printed, they never turn into a VIOLATION of the property."""
+    import tempfile
+    idx = json.load(open(os.path.join(VERIF, "variants", "index.json")))
+    mine = [v for v in idx if any(e[0] == prop for e in v["expect"])]
+    out = []
+    for v in mine:
+        d = tempfile.mkdtemp(prefix="verif-sens.")
+        try:
+            repo = os.path.join(d, "repo")
+            os.makedirs(repo)
+            shutil.copytree(os.path.join(REPO, "src"), os.path.join(repo, "src"))
+            for f in ("Cargo.toml", "Cargo.lock"):
+                if os.path.exists(os.path.join(REPO, f)):
+                    shutil.copy(os.path.join(REPO, f), repo)
+            applied = False
+            if "patch" in v:
+                subprocess.run(["git", "init", "-q", "."], cwd=repo)
+                p = subprocess.run(["git", "apply", os.path.join(VERIF, "variants", v["patch"])], cwd=repo,
+                                   stdout=subprocess.PIPE, stderr=subprocess.PIPE)
+                applied = p.returncode == 0
+            else:
+                fp = os.path.join(repo, v["file"])
+                if os.path.exists(fp):
+                    s = open(fp).read()
+                    if v["old"] in s:
+                        open(fp, "w").write(s.replace(v["old"], v["new"], 1))
+                        applied = True
+            rec = {"variant": v["name"], "applied": applied, "fired": None, "keys": []}
+            if applied:
+                env = dict(os.environ)
+                env["VERIF_REPO"] = repo
+                env["VERIF_OUT"] = os.path.join(d, "out")
+                p = subprocess.run([os.path.join(VERIF, "check"), prop, "--tier", "quick", "--configs", "all"], env=env,
+                                   stdout=subprocess.PIPE, stderr=subprocess.STDOUT, text=True)
+                keys = []
+                rd = os.path.join(d, "out", "reports", prop)
+                if os.path.isdir(rd):
+                    for f in os.listdir(rd):
+                        try:
+                            keys.append(json.load(open(os.path.join(rd, f)))["key"])
+                        except Exception:
+                            pass
+                wants = [e[1] for e in v["expect"] if e[0] == prop]
+                if any("engine|analysis-error" in k for k in keys):
+                    rec["fired"] = None
+                    rec["note"] = "variant does not compile on this tree: skipped"
+                else:
+                    rec["fired"] = all(any(w in k for k in keys) for w in wants)
+                rec["keys"] = sorted(keys)[:6]
+            out.append(rec)
+            res.instance("sensitivity", "variant %s: applied=%s, rule fired=%s %s" % (v["name"], applied, rec["fired"], rec["keys"][:2]),
+                         None, nontrivial=bool(applied))
+            if applied and rec["fired"] is False:
+                print("SENSITIVITY-WARNING property=%s variant=%s applied but the expected rule did not fire (checker health, not a property violation)" % (prop, v["name"]))
+        finally:
+            shutil.rmtree(d, ignore_errors=True)
+    res.rule("sensitivity", "seeded one-edit variants of the repository are analysed statically; each must make its rule fire (checker health)")
+    res.note("sensitivity suite: %d variant(s) for %s: %s" % (len(out), prop, json.dumps(out)))
     return out
